@@ -287,6 +287,10 @@ def run_case(ctx, case, rng=None):
     # the same numbers in another memory layout / container / exact dtype
     ctx.presentations("crps", lambda o, e: decomp(crps(o, e))[0], [yin, x], d, case, rng,
                       rtol=1e-12, n=2)
+    if n * m <= 400:
+        ctx.reuse("crps", lambda o, e: (lambda r: (r[0], r[1].values))(crps(o, e)),
+                  [yin, x], (lambda r: (r[0], r[1].values))(crps(yin.copy(), x.copy())),
+                  case, rtol=1e-13)
     # member permutation, independently per forecast
     xp = np.array([rng.permutation(r) for r in x])
     same("member-permutation", decomp(crps(yin, xp))[0], tolrel=1e-13)
